@@ -119,6 +119,41 @@ def task_clean(p, cells, variant, tier):
 task_clean.contract_fn = "curves.Curve.clean"
 
 
+def task_strict(p, cells, variant):
+    """Caller-supplied tolerance 0: only exact removals / reductions may be accepted (no genericity assumption: both branches explored)."""
+    fn = "curves.Curve.clean"
+    out = []
+    mon = con.Monitor().install(heavy)
+    try:
+        U = vec(p, cells, variant)
+        Ue = spec.elevate_vector(U, p, 1)
+        pe = p + 1
+        ne = len(Ue) - pe - 1
+        en = ["P%d" % i for i in range(ne)]
+        for label, call in (("degree_clean(0)", lambda c: c.degree_clean(0)), ("clean(0)", lambda c: c.clean(0)), ("knot_clean(tolerance=0)", lambda c: c.knot_clean(tolerance=0))):
+            ctx = con.con_ctx(en + ["t"])
+
+            def body(chk, ctx=ctx, call=call, label=label):
+                P = [ctx.sym(x) for x in en]
+                t = ctx.sym("t")
+                C = chk.call(curves.Curve, list(Ue), P)
+                chk.call(call, C)
+                okc = C.ctrlpoints is not None and len(C.ctrlpoints) == len(C.knotvector) - C.degree - 1
+                chk.add("strict-consistent", okc, "consistent after %s" % label)
+                if okc:
+                    chk.identities("strict-function-unchanged", curve_eq_pairs(ctx, Ue, P, None, pe, list(C.knotvector), list(C.ctrlpoints), None, C.degree, t),
+                                   detail_ok="with tolerance 0 every accepted step is exact: the curve is the same function on this path")
+
+            out += H.run_paths(ctx, fn, "S-con", "p=%d/%s,kv=%d,strict,%s" % (p, "".join(map(str, cells)), variant, label),
+                               dict(kind="c14.strict", p=p, cells=cells, variant=variant, call=label), body, max_paths=64)
+    finally:
+        mon.uninstall()
+    return out
+
+
+task_strict.contract_fn = "curves.Curve.clean"
+
+
 def shapes(tier):
     out = [(1, (0, 0, 0)), (2, (0, 0, 0)), (1, (0, 1, 0)), (2, (0, 1, 0)), (2, (0, 2, 0)), (0, (0, 1, 0)), (2, (1, 0, 2))]
     if tier != "quick":
@@ -131,6 +166,8 @@ def tasks(tier, seed):
     for p, cells in shapes(tier):
         for variant in ((0, 1) if tier == "quick" else (0, 1, 2)):
             ts.append((task_clean, (p, cells, variant, tier)))
+    for p, cells in ((1, (0, 0, 0)), (2, (0, 0, 0)), (1, (0, 1, 0)), (2, (0, 2, 0))):
+        ts.append((task_strict, (p, cells, 0)))
     return ts
 
 
@@ -139,6 +176,16 @@ def replay(o):
     p, cells, variant = w["p"], tuple(w["cells"]), w["variant"]
     U = vec(p, cells, variant)
     n = len(U) - p - 1
+    if w["kind"] == "c14.strict":
+        Ue = spec.elevate_vector(U, p, 1)
+        Q = [F(3), F(-1), F(4), F(1, 2), F(-5), F(9, 2), F(2), F(-6), F(5)][:n]
+        P = apply_T(spec.refine_matrix(U, p, Ue, p + 1), Q)
+        P[len(P) // 2] += F(1, 10 ** 7)          # top degree tiny but genuinely needed
+        C = curves.Curve(list(Ue), list(P))
+        {"degree_clean(0)": lambda c: c.degree_clean(0), "clean(0)": lambda c: c.clean(0), "knot_clean(tolerance=0)": lambda c: c.knot_clean(tolerance=0)}[w["call"]](C)
+        from .fitcommon import concrete_curve_equal
+        same, u = concrete_curve_equal(Ue, P, None, p + 1, list(C.knotvector), list(C.ctrlpoints), None, C.degree)
+        return not same, dict(knots=Ue, ctrlpoints=P, call=w["call"], expected="unchanged as a function (tolerance 0)"), dict(knots=tuple(C.knotvector), ctrlpoints=C.ctrlpoints, differs_at=u)
     Uf = [F(x) for x in w["Uf"]]
     pf = w["pf"]
     T = spec.refine_matrix(U, p, Uf, pf)
